@@ -936,7 +936,8 @@ pub fn check(sc: &Scenario, tr: &Trace) -> Outcome {
 fn classify_family(expected: &str, observed: &str) -> &'static str {
 	if observed == "task-panic" || expected.contains("task-end") || observed == "task-end" {
 		"end"
-	} else if expected.contains("marker") && observed == "marker" {
+	} else if expected.contains("marker") || observed == "marker" {
+		// a control closure ran when something else was due, or something else ran when a closure was due
 		"order"
 	} else if expected.contains("kill") || observed == "kill" || expected.contains("signal") || observed == "signal" {
 		"graceful"
